@@ -496,4 +496,7 @@ def run(rep: Report, tier: str):
     check_table(repo, rep)
     check_registered(repo, rep)
     check_complete_view(repo, rep)
+    from .c03 import check_body_chain
+
+    check_body_chain(repo, rep, RULE="C04.complete-view")  # an emitted import/call statement must reach the analysed Module
     check_dedupe(repo, rep)
